@@ -203,6 +203,12 @@ class FilReader(Filterbank):
         if lastread < skipback:
             nreads -= 1
             lastread = nsamps - (nreads * (gulp - skipback))
+        if nreads > 0 and (nreads - 1) * (gulp - skipback) + gulp > nsamps:
+            msg = (
+                f"cannot read {nsamps} samples in blocks of {gulp} "
+                f"with skipback ({skipback})"
+            )
+            raise ValueError(msg)
         blocks = [
             (ii, gulp * self.header.nchans, -skipback * self.header.nchans)
             for ii in range(nreads)
@@ -210,18 +216,32 @@ class FilReader(Filterbank):
         if lastread != 0:
             blocks.append((nreads, lastread * self.header.nchans, 0))
 
+        read_to_end = start + nsamps == self.header.nsamples
+        datalen = self.header.stream_info.get_combined("datalen")
+        read_view = memoryview(read_buffer)
+        unpack_view = None if unpack_buffer is None else memoryview(unpack_buffer)
         for ii, block, skip in track(blocks, description=description, disable=quiet):
             logger.debug(
                 f"read_plan: Reading block {ii}/{nreads}, {block} elements, "
                 f"with skipback={skip}",
             )
-            nbytes = self._file.creadinto(read_buffer, unpack_buffer)
             expected_nbytes = int(block * self.chan_stride)
+            nbytes = self._file.creadinto(
+                read_view[:expected_nbytes],
+                None if unpack_view is None else unpack_view[:block],
+            )
             if nbytes != expected_nbytes:
                 msg = (
                     f"Unexpected number of bytes read from file {nbytes} (actual) "
                     f"!= {expected_nbytes} (expected)"
                 )
+                raise ValueError(msg)
+            if (
+                ii == len(blocks) - 1
+                and read_to_end
+                and self._file.cur_data_pos_stream != datalen
+            ):
+                msg = "Unexpected bytes in file after the last sample"
                 raise ValueError(msg)
             if skip != 0:
                 self._file.seek(int(skip * self.chan_stride), whence=1)
